@@ -277,20 +277,41 @@ func checkC19(c caseC19) (Outcome, error) {
 			if err != nil {
 				return fail("op %d: bookmarks list failed: %v", oi, err)
 			}
-			want := "There are no bookmarks defined yet.\n"
-			if len(m) > 0 {
-				var names []string
-				for n := range m {
-					names = append(names, n)
-				}
-				sort.Strings(names)
-				want = ""
-				for _, n := range names {
-					want += "@" + n + " -> " + m[n] + "\n"
+			// tolerant reading: one line per bookmark, in name order, each naming "@name" and the path
+			var names []string
+			for n := range m {
+				names = append(names, n)
+			}
+			sort.Strings(names)
+			outLines := []string{}
+			for _, l := range strings.Split(strings.TrimRight(outText, "\n"), "\n") {
+				if strings.TrimSpace(l) != "" {
+					outLines = append(outLines, l)
 				}
 			}
-			if outText != want {
-				return fail("op %d: bookmarks list printed %q, the map renders as %q", oi, outText, want)
+			if len(m) == 0 {
+				for _, l := range outLines {
+					if strings.Contains(l, "->") || strings.Contains(l, h.dir) {
+						return fail("op %d: bookmarks list shows %q although there are no bookmarks", oi, l)
+					}
+				}
+			} else {
+				// names and paths may contain newlines themselves: compare on the joined text
+				pos := 0
+				for _, n := range names {
+					k1 := strings.Index(outText[pos:], "@"+n)
+					if k1 < 0 {
+						return fail("op %d: bookmarks list does not show @%s (in name order); output %q", oi, n, outText)
+					}
+					k2 := strings.Index(outText[pos+k1:], m[n])
+					if k2 < 0 {
+						return fail("op %d: bookmarks list does not show the target of @%s (%s); output %q", oi, n, m[n], outText)
+					}
+					pos += k1 + k2 + len(m[n])
+				}
+				if strings.Count(outText, "->") != len(m) && !strings.Contains(strings.Join(names, ""), "->") {
+					return fail("op %d: bookmarks list shows %d entries for %d bookmarks: %q", oi, strings.Count(outText, "->"), len(m), outText)
+				}
 			}
 		case "info", "info-dir", "info-file":
 			p, had := m[name]
